@@ -89,10 +89,12 @@ pub const CHILD_INIT: [u8; 8] = [0x60, 0x00, 0x5f, 0x53, 0x60, 0x01, 0x5f, 0xf3]
 ///  7 boom(): SSTORE(1, 9) then INVALID
 ///  8 callpre(addr=b1, len=b2, input=b3..): STATICCALL precompile `addr` with input; stores success in slot 3, returns return data
 ///  9 setmany(n=b1, val=b2): SSTORE(10+i, val) for i < n, and LOG1(topic = val) each
+/// 10 setwide(key = bytes 1..33, val = bytes 33..65): SSTORE of a full-width key / value, LOG1(topic = key, data = val)
+/// 11 getwide(key = bytes 1..33): return SLOAD(key)
 pub fn s_runtime() -> Vec<u8> {
     let mut a = Asm::new();
     a.cd_byte(0);
-    for (sel, l) in [(1u64, "set"), (2, "create"), (3, "die"), (4, "fail"), (5, "spin"), (6, "get"), (7, "boom"), (8, "callpre"), (9, "setmany")] {
+    for (sel, l) in [(1u64, "set"), (2, "create"), (3, "die"), (4, "fail"), (5, "spin"), (6, "get"), (7, "boom"), (8, "callpre"), (9, "setmany"), (10, "setwide"), (11, "getwide")] {
         a.op(0x80).push(sel).op(0x14).jumpi(l);
     }
     a.op(0x00);
@@ -142,11 +144,39 @@ pub fn s_runtime() -> Vec<u8> {
     a.cd_byte(2).push(0).push(0).op(0xa1); // LOG1(0,0,topic = val)
     a.jump("sm_loop");
     a.label("sm_end").op(0x00);
+    // setwide
+    a.label("setwide");
+    a.push(33).op(0x35).push(1).op(0x35).op(0x55); // SSTORE(key = cd[1..33], value = cd[33..65])
+    a.push(33).op(0x35).push(0).op(0x52); // mstore(0, val)
+    a.push(1).op(0x35).push(32).push(0).op(0xa1).op(0x00); // LOG1(0, 32, key)
+    // getwide
+    a.label("getwide").push(1).op(0x35).op(0x54).push(0).op(0x52).push(32).push(0).op(0xf3);
     a.finish()
 }
 
 pub fn s_initcode() -> Vec<u8> {
     initcode(&s_runtime())
+}
+
+/// a storage key and values that do not fit any narrower integer type
+pub const WIDE_KEY: [u8; 32] = [0x80, 0, 0, 0, 0, 0, 0, 0, 0, 0, 0, 0, 0, 0, 0, 0, 0x01, 0, 0, 0, 0, 0, 0, 0, 0, 0, 0, 0, 0, 0, 0, 0x02];
+
+pub fn wide_val(v: u8) -> [u8; 32] {
+    let mut x = [0xffu8; 32];
+    if v == 0 {
+        return [0u8; 32];
+    }
+    x[0] = 0xf0 | (v & 0x0f);
+    x[31] = v;
+    x
+}
+
+/// call data for S.setwide(WIDE_KEY, wide_val(v)); v = 0 clears the slot
+pub fn s_setwide(v: u8) -> Vec<u8> {
+    let mut d = vec![10u8];
+    d.extend_from_slice(&WIDE_KEY);
+    d.extend_from_slice(&wide_val(v));
+    d
 }
 
 /// call data for S.set
@@ -207,6 +237,12 @@ pub fn view_initcode(s_addr: &[u8], accounts: &[Vec<u8>]) -> Vec<u8> {
         a.push(6).push(0x1000).op(0x53).push(slot).push(0x1001).op(0x53);
         // staticcall(gas, S, in 0x1000, 2, out ptr, 32)
         a.push(32).push(ptr).push(2).push(0x1000).push_bytes(s_addr).op(0x5a).op(0xfa).op(0x50);
+        ptr += 32;
+    }
+    {
+        // S.getwide(WIDE_KEY)
+        a.push(11).push(0x1000).op(0x53).push_bytes(&WIDE_KEY).push(0x1001).op(0x52);
+        a.push(32).push(ptr).push(33).push(0x1000).push_bytes(s_addr).op(0x5a).op(0xfa).op(0x50);
         ptr += 32;
     }
     for acc in accounts {
